@@ -16,7 +16,7 @@ T = {
          "fault enumeration (EMFILE at the k-th allocation, protocol faults) + stateful property-based testing (rapid)", "DESIGN.md §4 C13"),
  "C17": ("exploration",
          "Property testing (rapid state machine) over a real handshake, the real AsyncAdapter and a real TCP socket: generated positions of peer events (data, ping) and application calls (AsyncNextFrame/AsyncNextMessage, AsyncWrite/AsyncWriteFrame/AsyncFlush) relative to poll cycles, so that application writes overlap the read path's automatic control-reply flush; every user callback must run exactly once within a bounded number of PollOne calls, and the server-side byte stream must parse into the expected frames in order. Bounded search over schedules.",
-         "Trusts the raw harness server and the independent parser; messages <= 2 KiB (the adapter writes through blocking net.Conn.Write); one read and one application write outstanding at a time.",
+         "Trusts the raw harness server and the independent parser; messages <= 2 KiB (the adapter writes through blocking net.Conn.Write); one read and up to three application writes outstanding; completion callbacks start further operations.",
          "stateful property-based testing over real sockets with harness-chosen poll cycles (rapid)", "DESIGN.md §4 C17"),
  "C18": ("exploration",
          "Metamorphic property testing (rapid) of the opening handshake against a raw TCP server in the harness: response status, header set/order/case/whitespace, accept key, piggy-backed frames, segmentation and early close are generated; acceptance must equal the RFC predicate for every variant, the bytes after the response must all arrive as frames, and a re-handshaken stream must behave like a fresh one. Bounded search.",
@@ -64,7 +64,7 @@ T = {
          "property-based testing with single-fault mutation of conforming inputs (rapid)", "DESIGN.md §4 C15"),
  "C16": ("exploration",
          "Property testing (rapid): generated write histories (all APIs, length classes, caller-built frames with/without payload, auto Pong/Close, pooled-frame reuse, inline/parked transport completions); the complete captured byte stream must parse with an independent parser into exactly the submitted frames. Bounded search.",
-         "Trusts the independent parser; one application write in flight at a time; scripted transport is all-or-error like the real adapter; GOMAXPROCS=1 makes sync.Pool reuse deterministic.",
+         "Trusts the independent parser; the history test keeps one application write in flight, the burst test issues up to nine without waiting and releases transport completions one at a time; scripted transport is all-or-error like the real adapter; GOMAXPROCS=1 makes sync.Pool reuse deterministic.",
          "property-based testing with an independent parser as oracle (rapid)", "DESIGN.md §4 C16"),
  "C19": ("exploration",
          "Round-trip / differential property testing (rapid) of CodecConn with the length-prefixed codec: every segmentation class of the read stream over a scripted transport, write path byte-exactness, hostile and over-limit headers, a real sonic.Dial<->sonic.Listen pair with small kernel buffers so both directions would-block mid-item, plus a native fuzz target in the thorough tier. Bounded search.",
